@@ -62,7 +62,7 @@ CHECKS.update({
    note='The twin defines history-independence exactly as the statement does (same string, same declarations).'),
  'C14': dict(engine='lexsim', level='exploration', ref='DESIGN.md §6 C14',
    technique='deterministic simulation: seeded construction / rebuild / copy / pickle / comparison / mutation-attempt histories under per-run cache sizes with eviction faults, judged against structural tuples and against a fault-free twin execution (large cache) of the same history',
-   text='Histories of 30-160 operations over all nine lexical types and Argument (system predicates over-represented; open, vacuous and re-bound quantified items included) run under cache sizes 1..1000 with eviction faults placed at random and between taking an ident/spec and rebuilding from it; equality <=> structural identity, hash, one total order with type rank first, rebuild/copy/pickle equality (an argument's second construction carries a title) and immutability are checked per operation, an exception escaping from library code during an operation the model takes to be valid is a violation, and the whole observation log must equal that of the large-cache twin.',
+   text='Histories of 30-160 operations over all nine lexical types and Argument (system predicates over-represented; open, vacuous and re-bound quantified items included) run under cache sizes 1..1000 with eviction faults placed at random and between taking an ident/spec and rebuilding from it; equality <=> structural identity, hash, one total order with type rank first, rebuild/copy/pickle equality (the second construction of an argument carries a title) and immutability are checked per operation, an exception escaping from library code during an operation the model takes to be valid is a violation, and the whole observation log must equal that of the large-cache twin.',
    note='Cache size 0 is unsupported by the package (import fails) and not judged.'),
  'C19': dict(engine='proofsim', level='exploration', ref='DESIGN.md §6 C19',
    technique='deterministic simulation supplies the population: tableaux finished under seeded schedules and cut short at seeded step limits; long-lived writers for every registered format x notation x seeded options are all constructed first and render in seeded interleavings, again after a virtual wall-clock jump, and are compared with fresh writers; the text rendering is parsed back and compared token by token with the branches',
